@@ -25,6 +25,11 @@ BODIES = {
     "proj-typeof": [("place", "e", "small-lamp", B("+", V("i"), I(10)), I(29), None),
                     ("decl", "Signal", "k", ("proj", B("*", V("i"), I(2)), ("typeof", "a"))),
                     ("prop", "e", "enable", B(">", B("-", V("a"), V("k")), I(0)))],
+    # a condition that is a compile-time constant in every iteration
+    "const-cond": [("place", "e", "small-lamp", B("+", V("i"), I(10)), I(31), None),
+                   ("prop", "e", "enable", B("<", V("i"), I(1)))],
+    "const-cond-mod": [("place", "e", "small-lamp", B("+", V("i"), I(10)), I(33), None),
+                       ("prop", "e", "enable", B("==", B("%", B("+", V("i"), I(4)), I(2)), I(1)))],
     # body calling a function
     "call": [("place", "e", "small-lamp", B("+", V("i"), I(10)), I(28), None),
              ("prop", "e", "enable", B(">", ("call", "scale", [V("a"), V("i")]), I(4)))],
@@ -56,7 +61,7 @@ class C16(core.Check):
             for b in rng:
                 for s in (None, -2, -1, 1, 2, 3):
                     bodies = list(BODIES) if tier == "thorough" else \
-                        (["coord", "cmp", "proj"] if (a + b) % 2 == 0 else ["arith", "typed", "proj-typeof"]) + (["call"] if s in (1, -1) else [])
+                        (["coord", "cmp", "proj", "const-cond"] if (a + b) % 2 == 0 else ["arith", "typed", "proj-typeof", "const-cond-mod"]) + (["call"] if s in (1, -1) else [])
                     for body in bodies:
                         out.append(mk(("range", a, b, s), body))
         for lst in ([], [4], [3, 1, 2], [-2, 5, 0, 5 - 4]):
